@@ -399,6 +399,12 @@ def parse_args(*args, **kwargs):
 def main(*args, **kwargs):
     args = parse_args(*args, **kwargs)
 
+    # A bitstream may contain arbitrarily large (exp-golomb coded) integers.
+    # Lift the limit CPython 3.11+ places on int-to-string conversion so that
+    # displaying such a value (or an error mentioning it) cannot fail.
+    if hasattr(sys, "set_int_max_str_digits"):
+        sys.set_int_max_str_digits(0)
+
     validator = BitstreamValidator(
         filename=args.bitstream,
         show_status=not args.no_status,
